@@ -5,7 +5,6 @@ import (
 	"encoding/gob"
 	"fmt"
 	"path/filepath"
-	"sync"
 
 	"github.com/pkg/errors"
 
@@ -55,7 +54,7 @@ type SubCache[EntityT entity.Interface, ExcerptT Excerpt, CacheT CacheEntity] st
 	version   uint
 	maxLoaded int
 
-	mu       sync.RWMutex
+	mu       rwMutex
 	excerpts map[entity.Id]ExcerptT
 	cached   map[entity.Id]CacheT
 	lru      lruIdCache
